@@ -1,0 +1,11 @@
+//go:build !verif
+
+// Package verifhook provides no-op instrumentation points.
+// With the "verif" build tag the points call into settable callbacks.
+package verifhook
+
+// FS is called after a successful file-system mutation.
+func FS(op, site, path, path2 string) {}
+
+// Pause is called at named scheduling points.
+func Pause(point string) {}
